@@ -36,9 +36,34 @@ type Recorder struct {
 	Images map[uint64]string
 	// Hook, when set, is called at entry/exit of snapshot related state machine calls
 	Hook func(event string, name string)
+	// SlowSnapshot makes SaveSnapshot / PrepareSnapshot take this long
+	SlowSnapshot time.Duration
+	busy         map[string]int // replica name -> snapshot related calls in progress
+}
+
+// SnapshotBusy reports whether a SaveSnapshot/PrepareSnapshot call of the replica is in progress.
+func (r *Recorder) SnapshotBusy(name string) bool {
+	r.mu.Lock()
+	defer r.mu.Unlock()
+	return r.busy[name] > 0
 }
 
 func (r *Recorder) hook(event string, name string) {
+	r.mu.Lock()
+	if r.busy == nil {
+		r.busy = map[string]int{}
+	}
+	switch event {
+	case "sm-save-enter", "sm-prepare-enter":
+		r.busy[name]++
+	case "sm-save-exit", "sm-prepare-exit":
+		r.busy[name]--
+	}
+	slow := r.SlowSnapshot
+	r.mu.Unlock()
+	if slow > 0 && (event == "sm-save-enter" || event == "sm-prepare-enter") {
+		time.Sleep(slow)
+	}
 	if r.Hook != nil {
 		r.Hook(event, name)
 	}
@@ -440,6 +465,8 @@ func (s *ConcurrentKV) Lookup(q interface{}) (interface{}, error) { return s.c.l
 func (s *ConcurrentKV) PrepareSnapshot() (interface{}, error) {
 	s.c.enterExclusive("PrepareSnapshot", &s.c.inPrepare)
 	defer atomic.AddInt32(&s.c.inPrepare, -1)
+	s.c.rec.hook("sm-prepare-enter", s.c.name)
+	defer s.c.rec.hook("sm-prepare-exit", s.c.name)
 	s.c.widen()
 	return s.c.image(), nil
 }
@@ -515,6 +542,8 @@ func (s *OnDiskKV) Sync() error {
 func (s *OnDiskKV) PrepareSnapshot() (interface{}, error) {
 	s.c.enterExclusive("PrepareSnapshot", &s.c.inPrepare)
 	defer atomic.AddInt32(&s.c.inPrepare, -1)
+	s.c.rec.hook("sm-prepare-enter", s.c.name)
+	defer s.c.rec.hook("sm-prepare-exit", s.c.name)
 	s.c.widen()
 	return s.c.image(), nil
 }
